@@ -274,14 +274,21 @@ def rule_dimguard(ctx, py):
         ctx.need(len(recs) >= 3, R, "%s: destination assignments not found" % q)
         # the destination system is a function of the target argument alone, whatever form the target takes
         tgt = [p_ for p_ in pyfe.params(f) if p_ != v][0]
+        derived = {tgt, "su_dst"}
+        for _ in range(4):        # locals computed from the target alone (parsed = parse_units(u)) carry it on
+            for node in ast.walk(f):
+                if isinstance(node, ast.Assign) and len(node.targets) == 1 and isinstance(node.targets[0], ast.Name):
+                    nm_ = {x.id for x in ast.walk(node.value) if isinstance(x, ast.Name)}
+                    if nm_ & derived and v not in nm_ and pyfe.src(node.value) != "0":
+                        derived.add(node.targets[0].id)
         for node in ast.walk(f):
             if isinstance(node, ast.Assign) and len(node.targets) == 1 and pyfe.src(node.targets[0]) in ("su_dst", tgt) and \
                     pyfe.src(node.value) != "0":
                 nm = {x.id for x in ast.walk(node.value) if isinstance(x, ast.Name)}
-                ctx.check(bool(nm & {tgt, "su_dst"}) and v not in nm, R, node, q, pyfe.src(node)[:70],
+                ctx.check(bool(nm & derived) and v not in nm, R, node, q, pyfe.src(node)[:70],
                           "derived from the target argument `%s`" % tgt, "the destination of the conversion is taken from `%s`, not "
                           "from the target `%s`: the quantity is 'converted' to its own units (factor 1, any dimension accepted)"
-                          % (sorted(nm - {tgt, "su_dst"})[:1] or ["?"], tgt))
+                          % (sorted(nm - derived)[:1] or ["?"], tgt))
         for node, facts in recs:
             val = pyfe.src(node.value)
             if val.endswith(".sys") and not val.startswith("su_dst"):
